@@ -1,1 +1,62 @@
-// harnesses for parser (cfg(kani) only)
+// Harnesses for src/parser.rs (cfg(kani) only): C06/C07/C08 - the hand-written validators behind the grammar.
+#![allow(unused_imports, dead_code, unused_mut)]
+use super::*;
+use crate::verif_common::*;
+use core::mem::forget;
+
+// validate_range: accepts exactly the I-JSON integers (RFC 9535 2.1), value unchanged.
+proof!(c06_validate_range, 3, {
+    let v: i64 = kani::any();
+    let r = validate_range(v);
+    let inside = v >= IMIN && v <= IMAX;
+    match &r {
+        Ok(x) => {
+            assert!(inside, "an integer outside the I-JSON range was accepted");
+            assert!(*x == v, "validate_range changed the value");
+        }
+        Err(_) => assert!(!inside, "an integer inside the I-JSON range was rejected"),
+    }
+    kani::cover!(v == IMAX, "upper bound accepted");
+    kani::cover!(v == IMIN, "lower bound accepted");
+    kani::cover!(v == IMAX + 1, "just above");
+    kani::cover!(v == i64::MIN, "i64::MIN");
+    forget(r);
+});
+
+// validate_js_str: accepts exactly the strings without code points below U+0020.
+macro_rules! c06_validate_js_str {
+    ($name:ident, $unwind:expr, [$($w:expr),*]) => {
+        proof!($name, $unwind, {
+            let mut buf = [0u8; 8];
+            let mut at = 0usize;
+            let mut can_ctl = false;
+            $( sym_scalar(&mut buf, at, $w); at += $w; if $w == 1 { can_ctl = true; } )*
+            let s = str_over(&buf, at);
+            let mut has_ctl = false;
+            let mut i = 0;
+            while i < at {
+                if buf[i] < 0x20 {
+                    has_ctl = true;
+                }
+                i += 1;
+            }
+            let r = validate_js_str(s);
+            match &r {
+                Ok(t) => {
+                    assert!(!has_ctl, "a string with an unescaped control character was accepted");
+                    assert!(t.len() == at && t.as_ptr() == s.as_ptr(), "validate_js_str must return its input");
+                }
+                Err(_) => assert!(has_ctl, "a string without control characters was rejected"),
+            }
+            kani::cover!(has_ctl || !can_ctl, "control character present");
+            kani::cover!(!has_ctl, "no control character");
+            forget(r);
+        });
+    };
+}
+c06_validate_js_str!(c06_validate_js_str_w1, 4, [1]);
+c06_validate_js_str!(c06_validate_js_str_w1_1, 5, [1, 1]);
+c06_validate_js_str!(c06_validate_js_str_w1_1_1, 6, [1, 1, 1]);
+c06_validate_js_str!(c06_validate_js_str_w2_1, 6, [2, 1]);
+c06_validate_js_str!(c06_validate_js_str_w1_3, 7, [1, 3]);
+c06_validate_js_str!(c06_validate_js_str_w4, 7, [4]);
